@@ -120,7 +120,7 @@ Proof.
       split.
       { unfold n1. split; intros Hpc; apply Hcell; [apply N1v|apply N1n]; exact Hpc. }
       split; [exact Xk|exact S2].
-    + apply (pref_one ih ivs s s2 (WPC (sub64 (hd_height (ph_hdr p)) 1) r coll)); [reflexivity|reflexivity|exact Xs|exact S2|].
+    + apply (pref_one ih ivs s s2 (WPC (sub64 (hd_height (ph_hdr p)) 1) r coll)); [reflexivity|reflexivity|exact Xs|exact S2| |reflexivity].
       eapply adv_sadv; [exact Hc|exact (proj1 HI')|apply adv_frame; exact F].
   - intros HI' HP' Ha' F. split.
     + split; [exact HI'|]. split; [exact HP'|].
@@ -245,7 +245,7 @@ Proof.
       split; intros Hpc; rewrite (proj1 (Hcells _ _)); [apply N1v|apply N1n]; exact Hpc. }
     split; [exact Hkok1|exact S2]. }
   assert (Pr2 : pref ih ivs s s2).
-  { apply (pref_one ih ivs s s2 (WPH p)); [| |exact Xs|exact S2|].
+  { apply (pref_one ih ivs s s2 (WPH p)); [| |exact Xs|exact S2| |reflexivity].
     - unfold s2. cbn. rewrite W18. reflexivity.
     - rewrite Est. reflexivity.
     - rewrite Est. unfold sadv. cbn [sr_hdrs sr_nhr]. split; [auto|]. split; [lia|]. split; [lia|].
